@@ -48,7 +48,10 @@ Inductive opcode : Type :=
 | Olshift | Orshift | Osrshift
 | Oslice | Oamov | Oindex
 | Ophi
-| Ounsupported.                            (* concat, bts, btc, circ, builtin, f* *)
+| Oconcat                                  (* array/string +: wires of In[0] then of In[1] *)
+| Obts | Obtc                              (* bit test set / clear at a constant index (peephole.go) *)
+| Ohamming                                 (* builtin: native("hamming", a, b) = circuits.Hamming *)
+| Ounsupported.                            (* circ (native circuit files), f* *)
 
 Record instr : Type := mkInstr {
   i_op : opcode;
@@ -76,6 +79,15 @@ Definition opnd_const (o : opnd) : nat :=
   match o with OConst _ cv _ => N.to_nat cv | OVar _ _ => 0%nat end.
 
 Definition arg (n : nat) (l : list opnd) : opnd := nth n l (OConst 0 0 (mkSty false 0)).
+
+(* number of set bits (circuits.Hamming counts the positions where the operands differ) *)
+Fixpoint pop_pos (p : positive) : N :=
+  match p with
+  | xH => 1
+  | xO q => pop_pos q
+  | xI q => 1 + pop_pos q
+  end.
+Definition popcount (n : N) : N := match n with N0 => 0 | Npos p => pop_pos p end.
 
 Definition bin (op : binop) (sg : bool) (vs : list sval) (i : instr) : N :=
   let a := arg 0 (i_args i) in
@@ -120,6 +132,10 @@ Definition eval_instr (vs : list sval) (i : instr) : N :=
       let n := Nat.div (opnd_bits a0 - off) (i_aux i) in
       index_sem n (i_aux i) (opnd_val vs a0 / pow2 off) (opnd_val vs a2)
   | Ophi => if N.odd (opnd_val vs a0) then opnd_val vs a1 else opnd_val vs a2
+  | Oconcat => opnd_val vs a0 + opnd_val vs a1 * pow2 (opnd_bits a0)
+  | Obts => ofb (N.testbit (opnd_val vs a0) (N.of_nat (opnd_const a1)))
+  | Obtc => ofb (negb (N.testbit (opnd_val vs a0) (N.of_nat (opnd_const a1))))
+  | Ohamming => popcount (N.lxor (opnd_val vs a0) (opnd_val vs a1))
   | Ounsupported => 0
   end.
 
